@@ -113,6 +113,11 @@ pub fn gen(seed: u64, tier: Tier, k: u64) -> Value {
                 // a non-empty item at the very end lands after the split
                 items.push(Item { len: 5, ent: Ent::Low4, hint, src: Src::Mem, dup_of: None, cat_of: None });
             }
+            // the first content of the SECOND cluster comes from a file (or a sub-range of one), the others from memory
+            if items.len() > 4095 {
+                items[4095].src = if rng.chance(1, 2) { Src::File } else { Src::Range { before: 7, after: 9 } };
+                items[4095].len = items[4095].len.max(6);
+            }
             cached = false;
         }
         2 => {
